@@ -269,6 +269,16 @@ func (c *ScriptConn) SetReadDeadline(t time.Time) error {
 	return nil
 }
 
+// ScriptPacketConn is a ScriptConn that additionally offers the net.PacketConn methods (what a *net.UDPConn obtained from a
+// `udp://` address is): the clients only use Read/Write, so it must behave like any other connection.
+type ScriptPacketConn struct{ ScriptConn }
+
+func (c *ScriptPacketConn) ReadFrom(p []byte) (int, net.Addr, error) {
+	n, err := c.Read(p)
+	return n, addr("remote"), err
+}
+func (c *ScriptPacketConn) WriteTo(p []byte, a net.Addr) (int, error) { return c.Write(p) }
+
 // ScriptPort is an io.ReadWriteCloser (serial port) driven by a Script.
 type ScriptPort struct{ S *Script }
 
